@@ -116,7 +116,8 @@ func runMutant(repo, verif string, m Mutant, bl *Baseline) (bool, string) {
 	base := bl.Obligations[m.Property]
 	for _, o := range sel {
 		be, inBase := base[o.Name]
-		if o.Status != "discharged" && (!inBase || be.Status == "discharged") {
+		// mirror the check: a safety obligation that is not in the baseline never alarms
+		if o.Status != "discharged" && ((inBase && be.Status == "discharged") || (!inBase && o.Kind != "safety")) {
 			return true, fmt.Sprintf("%s -> %s", o.Name, o.Status)
 		}
 	}
